@@ -147,17 +147,26 @@ def sim_yield():
 class _PoisonNumpy:
     """numpy proxy for the simulated namespace: np.empty returns NaN-poisoned memory."""
 
-    def __init__(self):
+    def __init__(self, varying=False):
         self.poison_allocs = 0
+        self.varying = varying      # library-level proxy: garbage differs from allocation to allocation, like a real heap
+
+    def _garbage(self):
+        """NaN, or - every other allocation of the varying proxy - a large finite value that is never the same twice."""
+        self.poison_allocs += 1
+        if self.varying and self.poison_allocs % 2 == 0:
+            return 3.33e33 + 1e20 * self.poison_allocs
+        return np.nan
 
     def empty(self, shape, dtype=np.float64, *a, **k):
         arr = np.empty(shape, dtype, *a, **k)
         ctx = _CTX
         if ctx is None or ctx.poison:
             if arr.dtype.kind == "f":
-                arr.fill(np.nan)
+                arr.fill(self._garbage())
             elif arr.dtype.kind == "c":
-                arr.fill(complex(np.nan, np.nan))
+                g = self._garbage()
+                arr.fill(complex(g, g))
             elif arr.dtype.kind in "iu":
                 arr.fill(np.iinfo(arr.dtype).min if arr.dtype.kind == "i" else np.iinfo(arr.dtype).max)
         return arr
@@ -167,9 +176,10 @@ class _PoisonNumpy:
         ctx = _CTX
         if ctx is None or ctx.poison:
             if arr.dtype.kind == "f":
-                arr.fill(np.nan)
+                arr.fill(self._garbage())
             elif arr.dtype.kind == "c":
-                arr.fill(complex(np.nan, np.nan))
+                g = self._garbage()
+                arr.fill(complex(g, g))
         return arr
 
     def __getattr__(self, name):
@@ -183,7 +193,7 @@ def poison_library_namespaces():
 
     # only modules without Numba-jitted functions: Numba resolves the global ``np`` of a jitted function's module
     # when it compiles a new signature, and must find the real numpy there (so speckit.core is left alone)
-    proxy = _PoisonNumpy()
+    proxy = _PoisonNumpy(varying=True)
     if getattr(A, "np", None) is np:
         A.np = proxy
     return proxy
